@@ -536,6 +536,13 @@ void vf_harness(void) {
                 VF_ASSERT(cnt == imn, "C15.tree.walk.retry.complete: a walk that was retried after one ENOMEM step still returns every stored key exactly once");
 #endif
             VF_ASSERT(tid_inv(t), "C03.inv.walk: a complete walk preserves the traversal invariant");
+            if (!vf_alloc_failed) {
+                /* a walk that ran to its end leaves the table in the "no walk unfinished" state: no node is stamped with the
+                 * current epoch.  The continuation clause of C04 (find_nearest cursor + getnext visits every key) starts from it. */
+                bool clean = true;
+                for (size_t i = 0; i < VF_N; i++) if (nd[i]->tid == t->tid) clean = false;
+                VF_ASSERT(clean, "C04.cont.pre: a walk that ran to its end leaves no node stamped with the current epoch, so that a search cursor obtained afterwards can be continued over every key");
+            }
         }
         VF_ASSERT(tree_matches(t), "C03.walk.pure: walking does not change keys, values or count");
     }
